@@ -223,6 +223,7 @@ theorem execSimple_rel (cur : Nat) (s : Simple) (st : St) : R st (execSimple env
     cases r with
     | error f => exact h
     | ok id => exact hR.trans h (importStar_rel hR env _ _ _)
+  | rel m a => exact hR.refl _
   | bind x v => exact hR.setGlobal _ _ _ _
   | setAll l => exact hR.setGlobal _ _ _ _
   | mutate n a v =>
@@ -328,6 +329,7 @@ theorem execSimple_nofuel (cur : Nat) (s : Simple) (st : St) (hg : G st) :
     cases r with
     | error f => simpa using h
     | ok id => exact importStar_nofuel env _ _ _
+  | rel m a => simp [execSimple]
   | bind x v => simp [execSimple]
   | setAll l => simp [execSimple]
   | mutate n a v =>
